@@ -84,7 +84,9 @@ def btcdeb_cmd(draw):
             a, b = draw(G.small_values), draw(G.small_values)
             script = G.push(a, 1) + G.push(b, 1) + bytes([draw(st.sampled_from(ops))]) + script[:20]
             argv.append('-z')
-        stdin = b'0x' + script.hex().encode() + b'\n'
+        # (the script text on stdin is trimmed of blanks around it: the buffer that was read, the trimmed text and what is freed are three things)
+        lead = draw(st.sampled_from([b'', b'', b'', b' ', b'\t', b'\r\n', b'  \n ', b' ' * 70]))
+        stdin = lead + b'0x' + script.hex().encode() + draw(st.sampled_from([b'\n', b'\n', b' \n', b'\r\n', b'', b'\n\n \n']))
         argv += ['0x' + x.hex() for x in stack]
     elif kind == 'script-junk':
         stdin = draw(st.one_of(st.just(junk_text(draw).encode()), st.binary(max_size=40))) + draw(st.sampled_from([b'\n', b'', b'\r\n']))
